@@ -489,7 +489,7 @@ PLANS = {
          AP('d1', S_ALL, [1, 8, 9, 10, 11], V_ALL, [1, 2, 9], 1, respell=True, extra_opt='wsonly=1'),
          AP('d2', [1, 2, 7, 10, 6], [1, 8, 9, 10], [1, 5, 8], [1, 5], 2, kinds=['copy', 'add', 'remove', 'replace'], respell=True,
             extra_opt='wsonly=1', timeout=9000),
-         AP('d3', [10], [1, 8, 9], [5], [5], 3, kinds=['copy'], timeout=9000)],
+         AP('d3', [9, 8], [1, 8, 9, 10], [5, 7], [5], 3, kinds=['add', 'copy'], timeout=9000)],
         'for every successful behaviour ending in a copy the patch is re-run with limits total-1 (must stop with '
         '*AccumulatedCopySizeError and no document), total, total+1, total+1000 (must succeed with the same document), through '
         'the per-call option and through the package default; behaviours under fixed limits 7/12/20 are compared with the '
